@@ -141,6 +141,11 @@ func c06(run *core.Run, replay string) {
 		{"small-blocks", cfg("RLT", "RANGE", 1024, 8, 32), "runs", 40000, S},
 		{"headerless", kz.Cfg{Transform: "LZX", Entropy: "ANS1", BlockSize: 8192, Jobs: 2, Checksum: 32, Headerless: true}, "dna", 100000, S},
 		{"tiny", cfg("NONE", "NONE", 1024, 1, 0), "text", 10, S},
+		// size hints smaller than the data (a file that grew) with blocks larger than the default 256 KiB buffer: the Writer sizes
+		// its first buffer from the hint and must grow it whatever the Write partition is
+		{"hint-small-512k", kz.Cfg{Transform: "NONE", Entropy: "NONE", BlockSize: 512 << 10, Jobs: 1, Checksum: 32, Hint: 100000}, "text", 1300000, S},
+		{"hint-tiny-1m", kz.Cfg{Transform: "LZ", Entropy: "HUFFMAN", BlockSize: 1 << 20, Jobs: 3, Checksum: 0, Hint: 1000}, "html", 2500000, S},
+		{"hint-300k-256k", kz.Cfg{Transform: "RLT", Entropy: "NONE", BlockSize: 262144, Jobs: 2, Checksum: 64, Hint: 250000}, "random", 900000, S},
 	}
 	chunks := []int{1, 2, 3, 5, 7, 8, 9, 13, 64, 1000, 4095, 4096, 4097, 65535, 65536, 65537, 262143, 262144, 262145}
 	var cases []*ioCase
@@ -169,7 +174,7 @@ func c06(run *core.Run, replay string) {
 			}
 			cases = append(cases, &ioCase{R: recs[ri], Mode: "readbuf", Sizes: sz, Jobs: uint(1 + k%3), Seed: S})
 		}
-		for _, sz := range [][]int{{1}, {7}, {1000}, {1, 4093, 13}, {int(recs[ri].Cfg.BlockSize)}, {int(recs[ri].Cfg.BlockSize) + 1}, {3, 100000}} {
+		for _, sz := range [][]int{{1}, {7}, {1000}, {1, 4093, 13}, {int(recs[ri].Cfg.BlockSize)}, {int(recs[ri].Cfg.BlockSize) + 1}, {3, 100000}, {200000, 100000, 300000}, {65536}, {32768}, {4000}, {300000}} {
 			if sz[0] == 1 && len(sz) == 1 && recs[ri].Size > 400000 {
 				continue
 			}
